@@ -146,3 +146,13 @@ fn cmp_failure_rate(a_fail: u64, a_total: u64, b_fail: u64, b_total: u64) -> std
         }
     }
 }
+
+#[cfg(agentpack_verif)]
+pub(crate) fn verif_cmp_failure_rate(
+    a_fail: u64,
+    a_total: u64,
+    b_fail: u64,
+    b_total: u64,
+) -> std::cmp::Ordering {
+    cmp_failure_rate(a_fail, a_total, b_fail, b_total)
+}
